@@ -27,7 +27,13 @@
 (* at the cache path beforehand (Pre), the overwrite flag, an input fault  *)
 (* in chunk FaultChunk (non-finite value, patch id out of range, missing   *)
 (* column -> DataChunk.create raises in the reading process) and whether   *)
-(* one of the given centres attracts no record.                            *)
+(* one of the given centres attracts no record.  cfg.Where says where the  *)
+(* fault of chunk FaultChunk strikes: in the "reader" (input faults), in   *)
+(* the pool "worker" whose part holds the chunk's first record             *)
+(* (split_into_patches raises: WorkFail, then pool.map re-raises once all  *)
+(* tasks are finished), or in the "writer" (process_patches raises when    *)
+(* it handles the item with that record: the writer process dies with a    *)
+(* non-zero exit code while the main process carries on feeding the queue).*)
 (*                                                                         *)
 (* Deviations (code as found):                                             *)
 (*  "FinalizeOnException"  CatalogWriter.__exit__ finalises on the error   *)
@@ -45,13 +51,13 @@
 (***************************************************************************)
 EXTENDS Naturals, Sequences, FiniteSets, TLC
 
-CONSTANTS MaxL, MaxCS, Ws, Pres, Faults, Deviations
+CONSTANTS MaxL, MaxCS, Ws, Pres, Faults, Wheres, Deviations
 
 NP == 2                                   \* patches / given centres
 
-VARIABLES cfg, mpc, wpc, c, pending, q, file, dir, ids, wexit, outcome, loaded
+VARIABLES cfg, mpc, wpc, c, pending, q, file, dir, ids, wexit, outcome, loaded, werr
 
-vars == <<cfg, mpc, wpc, c, pending, q, file, dir, ids, wexit, outcome, loaded>>
+vars == <<cfg, mpc, wpc, c, pending, q, file, dir, ids, wexit, outcome, loaded, werr>>
 
 Dev(d) == d \in Deviations
 L == cfg.L
@@ -72,15 +78,18 @@ PartOf(k, r) ==
     IN IF i <= big * (sz + 1) THEN ((i - 1) \div (sz + 1)) + 1
        ELSE big + ((i - 1 - big * (sz + 1)) \div (IF sz = 0 THEN 1 ELSE sz)) + 1
 Part(k, j) == { r \in ChunkRecs(k) : PartOf(k, r) = j }
+(* the record that triggers an injected worker / writer fault: first of the chunk *)
+FaultRec == (cfg.FaultChunk - 1) * CS + 1
 
 Init == /\ \E l \in 1..MaxL, cs \in 1..MaxCS, w \in Ws, pre \in Pres, ow \in BOOLEAN,
-              f \in Faults, ec \in BOOLEAN :
+              f \in Faults, ec \in BOOLEAN, wh \in Wheres :
              /\ (f > 0 => f <= (l + cs - 1) \div cs)          \* fault in an existing chunk
-             /\ cfg = [L |-> l, CS |-> cs, W |-> w, Pre |-> pre, Ow |-> ow, FaultChunk |-> f, EmptyCentre |-> ec]
+             /\ (f = 0 => wh = "reader")
+             /\ cfg = [L |-> l, CS |-> cs, W |-> w, Pre |-> pre, Ow |-> ow, FaultChunk |-> f, EmptyCentre |-> ec, Where |-> wh]
         /\ mpc = "start" /\ wpc = "notstarted" /\ c = 1 /\ pending = {} /\ q = <<>>
         /\ file = [pp \in 0..(NP - 1) |-> {}]
         /\ dir = cfg.Pre /\ ids = (cfg.Pre = "old")
-        /\ wexit = 0 /\ outcome = "none" /\ loaded = "none"
+        /\ wexit = 0 /\ outcome = "none" /\ loaded = "none" /\ werr = FALSE
 
 (* CatalogWriter.__init__: what happens to the path.  Returns the new dir
    state or "ERR" when it raises. *)
@@ -107,71 +116,81 @@ SeqInit ==
     /\ IF InitDir = "ERR"
          THEN /\ mpc' = "raised" /\ outcome' = "raised" /\ UNCHANGED <<dir, ids>>
          ELSE /\ dir' = "building" /\ ids' = FALSE /\ mpc' = "read" /\ UNCHANGED outcome
-    /\ UNCHANGED <<cfg, wpc, c, pending, q, file, wexit, loaded>>
+    /\ UNCHANGED <<cfg, wpc, c, pending, q, file, wexit, loaded, werr>>
 
 SeqChunk ==
     /\ W = 1 /\ mpc = "read" /\ c <= NC /\ cfg.FaultChunk # c
     /\ file' = Store(ChunkRecs(c))
     /\ c' = c + 1
-    /\ UNCHANGED <<cfg, mpc, wpc, pending, q, dir, ids, wexit, outcome, loaded>>
+    /\ UNCHANGED <<cfg, mpc, wpc, pending, q, dir, ids, wexit, outcome, loaded, werr>>
 
 SeqFault ==        \* DataChunk.create raises inside the `with CatalogWriter` block
     /\ W = 1 /\ mpc = "read" /\ c <= NC /\ cfg.FaultChunk = c
     /\ mpc' = "raised" /\ outcome' = "raised"
     /\ ids' = (Dev("FinalizeOnException") /\ FinalOK)          \* __exit__ -> finalize()
     /\ dir' = IF Dev("FinalizeOnException") /\ FinalOK THEN "complete" ELSE dir
-    /\ UNCHANGED <<cfg, wpc, c, pending, q, file, wexit, loaded>>
+    /\ UNCHANGED <<cfg, wpc, c, pending, q, file, wexit, loaded, werr>>
 
 SeqFinal ==
     /\ W = 1 /\ mpc = "read" /\ c > NC
     /\ IF FinalOK
          THEN /\ ids' = TRUE /\ dir' = "complete" /\ mpc' = "load" /\ UNCHANGED outcome
          ELSE /\ mpc' = "raised" /\ outcome' = "raised" /\ UNCHANGED <<ids, dir>>
-    /\ UNCHANGED <<cfg, wpc, c, pending, q, file, wexit, loaded>>
+    /\ UNCHANGED <<cfg, wpc, c, pending, q, file, wexit, loaded, werr>>
 
 ---------------------------------------------------------------------------
 (* multiprocessing variant: main process *)
 MStart ==
     /\ W > 1 /\ mpc = "start"
     /\ wpc' = "init" /\ mpc' = "read"
-    /\ UNCHANGED <<cfg, c, pending, q, file, dir, ids, wexit, outcome, loaded>>
+    /\ UNCHANGED <<cfg, c, pending, q, file, dir, ids, wexit, outcome, loaded, werr>>
 
 MRead ==
-    /\ W > 1 /\ mpc = "read" /\ c <= NC /\ cfg.FaultChunk # c
+    /\ W > 1 /\ mpc = "read" /\ c <= NC /\ ~(cfg.FaultChunk = c /\ cfg.Where = "reader")
     /\ pending' = 1..W /\ mpc' = "map"
-    /\ UNCHANGED <<cfg, wpc, c, q, file, dir, ids, wexit, outcome, loaded>>
+    /\ UNCHANGED <<cfg, wpc, c, q, file, dir, ids, wexit, outcome, loaded, werr>>
+
+WorkerFaultAt(j) == cfg.Where = "worker" /\ cfg.FaultChunk = c /\ FaultRec \in Part(c, j)
 
 Work(j) ==         \* pool task j: split_into_patches(part) ; queue.put(patches)
-    /\ mpc = "map" /\ j \in pending
+    /\ mpc = "map" /\ j \in pending /\ ~WorkerFaultAt(j)
     /\ q' = Append(q, [k |-> "part", recs |-> Part(c, j)])
     /\ pending' = pending \ {j}
-    /\ UNCHANGED <<cfg, mpc, wpc, c, file, dir, ids, wexit, outcome, loaded>>
+    /\ UNCHANGED <<cfg, mpc, wpc, c, file, dir, ids, wexit, outcome, loaded, werr>>
 
-MMapDone ==
+WorkFail(j) ==     \* pool task j raises before it puts anything; the other tasks still run
+    /\ mpc = "map" /\ j \in pending /\ WorkerFaultAt(j)
+    /\ pending' = pending \ {j} /\ werr' = TRUE
+    /\ UNCHANGED <<cfg, mpc, wpc, c, q, file, dir, ids, wexit, outcome, loaded>>
+
+MMapDone ==        \* pool.map returns, or re-raises a task's exception, once ALL tasks finished
     /\ mpc = "map" /\ pending = {}
-    /\ c' = c + 1 /\ mpc' = "read"
-    /\ UNCHANGED <<cfg, wpc, pending, q, file, dir, ids, wexit, outcome, loaded>>
+    /\ IF werr THEN mpc' = "mapfailed" /\ UNCHANGED c
+               ELSE c' = c + 1 /\ mpc' = "read"
+    /\ UNCHANGED <<cfg, wpc, pending, q, file, dir, ids, wexit, outcome, loaded, werr>>
 
 MPutEOQ ==
     /\ W > 1 /\ mpc = "read" /\ c > NC
     /\ q' = Append(q, [k |-> "EOQ", recs |-> {}]) /\ mpc' = "join"
-    /\ UNCHANGED <<cfg, wpc, c, pending, file, dir, ids, wexit, outcome, loaded>>
+    /\ UNCHANGED <<cfg, wpc, c, pending, file, dir, ids, wexit, outcome, loaded, werr>>
 
 MFault ==          \* exception inside `with WriterProcess`: __exit__ must still end the writer
-    /\ W > 1 /\ mpc = "read" /\ c <= NC /\ cfg.FaultChunk = c
+    /\ W > 1
+    /\ \/ mpc = "read" /\ c <= NC /\ cfg.FaultChunk = c /\ cfg.Where = "reader"
+       \/ mpc = "mapfailed"
     /\ IF Dev("NoSentinelOnError")
          THEN UNCHANGED <<wpc, wexit>>                      \* join() without sentinel
          ELSE /\ wpc' = "exited"                            \* ideal: process.terminate(), wherever it is
               /\ wexit' = IF wpc = "exited" THEN wexit ELSE 15
     /\ mpc' = "joinexc"
-    /\ UNCHANGED <<cfg, c, pending, q, file, dir, ids, outcome, loaded>>
+    /\ UNCHANGED <<cfg, c, pending, q, file, dir, ids, outcome, loaded, werr>>
 
 MJoin ==
     /\ mpc \in {"join", "joinexc"} /\ wpc = "exited"
     /\ IF mpc = "joinexc" \/ (wexit # 0 /\ ~Dev("WriterErrorVanishes"))
          THEN mpc' = "raised" /\ outcome' = "raised"
          ELSE mpc' = "load" /\ UNCHANGED outcome
-    /\ UNCHANGED <<cfg, wpc, c, pending, q, file, dir, ids, wexit, loaded>>
+    /\ UNCHANGED <<cfg, wpc, c, pending, q, file, dir, ids, wexit, loaded, werr>>
 
 ---------------------------------------------------------------------------
 (* multiprocessing variant: writer process *)
@@ -180,7 +199,7 @@ WInit ==
     /\ IF InitDir = "ERR"
          THEN /\ wpc' = "exited" /\ wexit' = 1 /\ UNCHANGED <<dir, ids>>
          ELSE /\ dir' = "building" /\ ids' = FALSE /\ wpc' = "get" /\ UNCHANGED wexit
-    /\ UNCHANGED <<cfg, mpc, c, pending, q, file, outcome, loaded>>
+    /\ UNCHANGED <<cfg, mpc, c, pending, q, file, outcome, loaded, werr>>
 
 WGet ==
     /\ wpc = "get" /\ q # <<>>
@@ -189,10 +208,16 @@ WGet ==
                 IF FinalOK
                   THEN /\ ids' = TRUE /\ dir' = "complete" /\ wpc' = "exited" /\ UNCHANGED <<wexit, file>>
                   ELSE /\ wpc' = "exited" /\ wexit' = 1 /\ UNCHANGED <<ids, dir, file>>
+           [] item.k = "part" /\ cfg.Where = "writer" /\ cfg.FaultChunk > 0 /\ FaultRec \in item.recs ->
+                \* process_patches raises: CatalogWriter.__exit__ must not finalise, the process dies
+                /\ wpc' = "exited" /\ wexit' = 1
+                /\ ids' = (Dev("FinalizeOnException") /\ FinalOK)
+                /\ dir' = IF Dev("FinalizeOnException") /\ FinalOK THEN "complete" ELSE dir
+                /\ UNCHANGED file
            [] OTHER ->
                 /\ file' = Store(item.recs) /\ UNCHANGED <<wpc, wexit, ids, dir>>
     /\ q' = Tail(q)
-    /\ UNCHANGED <<cfg, mpc, c, pending, outcome, loaded>>
+    /\ UNCHANGED <<cfg, mpc, c, pending, outcome, loaded, werr>>
 
 ---------------------------------------------------------------------------
 (* load_patches: open whatever is at the path *)
@@ -202,15 +227,16 @@ Load ==
          THEN /\ loaded' = (IF dir = "old" THEN "old" ELSE "new")
               /\ outcome' = "success" /\ mpc' = "done"
          ELSE /\ outcome' = "raised" /\ mpc' = "raised" /\ UNCHANGED loaded    \* patch info file not found
-    /\ UNCHANGED <<cfg, wpc, c, pending, q, file, dir, ids, wexit>>
+    /\ UNCHANGED <<cfg, wpc, c, pending, q, file, dir, ids, wexit, werr>>
 
 Done == mpc \in {"done", "raised"}
 
 SomeWork == \E j \in 1..2 : Work(j)
 SomeWork3 == \E j \in 3..4 : Work(j)
+SomeWorkFail == \E j \in 1..4 : WorkFail(j)
 
 Next == \/ SeqInit \/ SeqChunk \/ SeqFault \/ SeqFinal
-        \/ MStart \/ MRead \/ SomeWork \/ SomeWork3 \/ MMapDone \/ MPutEOQ \/ MFault \/ MJoin
+        \/ MStart \/ MRead \/ SomeWork \/ SomeWork3 \/ SomeWorkFail \/ MMapDone \/ MPutEOQ \/ MFault \/ MJoin
         \/ WInit \/ WGet \/ Load
         \/ (Done /\ UNCHANGED vars)
 
@@ -242,7 +268,7 @@ OnlyCatalogsDeleted == (cfg.Pre \in {"foreign", "file"}) => dir = cfg.Pre
    (an old catalog that was not to be overwritten stays, of course) *)
 NoOpenableDirAfterFailure == (outcome = "raised" /\ dir # "old") => ~ids
 
-TypeOK == /\ c \in 1..(NC + 1) /\ pending \subseteq 1..4
+TypeOK == /\ c \in 1..(NC + 1) /\ pending \subseteq 1..4 /\ werr \in BOOLEAN
           /\ \A pp \in 0..(NP - 1) : file[pp] \subseteq Records
 
 PrintDone == Done => PrintT(<<"done", cfg, outcome, loaded, dir, ids>>)
